@@ -173,27 +173,143 @@ func runC08(c *Ctx) {
 			}
 		}
 		c.S.Floor("T9", "address-range check functions in package sev", 1, len(checkers))
-		// T9b: the check returning nil means that every one of its tests was evaluated and passed — no
-		// nil return bypasses a test (an early `return nil` would let unaligned sizes reach the page loop)
-		guardCheckers := map[*ssa.Function]bool{}
-		for _, f := range fns {
-			if load.RelPkg(f) != "sev" {
-				continue
+		// a function whose every nil return stands behind the nil result of a checker (or hands a checker's result
+		// on) is a checker too: the check may be split into an alignment part and a range part behind one front
+		soleErr := func(f *ssa.Function) bool {
+			return f.Signature.Results().Len() == 1 && errIndex(f.Signature) == 0
+		}
+		for round := 0; round < 3; round++ {
+			for _, f := range fns {
+				if load.RelPkg(f) != "sev" || checkers[f] || !soleErr(f) || f.Blocks == nil {
+					continue
+				}
+				cks := callsIn(f, func(call ssa.CallInstruction) bool { return checkers[call.Common().StaticCallee()] })
+				if len(cks) == 0 {
+					continue
+				}
+				all, nOK := true, 0
+				for _, b := range f.Blocks {
+					ret, ok := b.Instrs[len(b.Instrs)-1].(*ssa.Return)
+					if !ok {
+						continue
+					}
+					v := ret.Results[0]
+					if isNilK(v) {
+						guarded := false
+						for _, ck := range cks {
+							if cv := ck.Value(); cv != nil && errKnownNil(b, cv) {
+								guarded = true
+							}
+						}
+						all = all && guarded
+						nOK++
+						continue
+					}
+					if call, ok := v.(*ssa.Call); ok && checkers[call.Call.StaticCallee()] {
+						nOK++
+					}
+				}
+				if all && nOK > 0 {
+					checkers[f] = true
+				}
 			}
-			hasPageLoop := false
-			for _, L := range naturalLoops(f) {
+		}
+		is4K := func(call *ssa.Call) bool {
+			cal := call.Call.StaticCallee()
+			return cal != nil && cal.Signature.Recv() != nil && namedIs(cal.Signature.Recv().Type(), repoPath("sev"), "SnpMeasurement") && strings.HasSuffix(cal.Name(), "4K")
+		}
+		calls4K := func(g *ssa.Function) bool {
+			for _, b := range g.Blocks {
+				for _, in := range b.Instrs {
+					if call, ok := in.(*ssa.Call); ok && is4K(call) {
+						return true
+					}
+				}
+			}
+			return false
+		}
+		// loopsOverParam: g has a loop that calls one of its function-typed parameters (a page iterator)
+		loopsOverParam := func(g *ssa.Function) bool {
+			if g == nil || g.Blocks == nil || !load.FuncInRepo(g) {
+				return false
+			}
+			for _, L := range naturalLoops(g) {
 				for lb := range L.Body {
 					for _, in := range lb.Instrs {
 						if call, ok := in.(*ssa.Call); ok {
-							if cal := call.Call.StaticCallee(); cal != nil && cal.Signature.Recv() != nil && namedIs(cal.Signature.Recv().Type(), repoPath("sev"), "SnpMeasurement") && strings.HasSuffix(cal.Name(), "4K") {
-								hasPageLoop = true
+							if _, isP := call.Call.Value.(*ssa.Parameter); isP && !call.Call.IsInvoke() {
+								return true
 							}
 						}
 					}
 				}
 			}
-			if hasPageLoop {
+			return false
+		}
+		type loopSite struct {
+			b   *ssa.BasicBlock
+			pos token.Pos
+		}
+		// the places of f from which the measurement is extended page by page: a loop around a *4K call, or the call
+		// of a page iterator that is handed a closure making the *4K call
+		pageLoopSites := func(f *ssa.Function) []loopSite {
+			var out []loopSite
+			for _, L := range naturalLoops(f) {
+				extends := false
+				for lb := range L.Body {
+					for _, in := range lb.Instrs {
+						if call, ok := in.(*ssa.Call); ok && is4K(call) {
+							extends = true
+						}
+					}
+				}
+				if extends {
+					out = append(out, loopSite{L.Header, L.Header.Instrs[0].Pos()})
+				}
+			}
+			for _, b := range f.Blocks {
+				for _, in := range b.Instrs {
+					call, ok := in.(*ssa.Call)
+					if !ok || !loopsOverParam(call.Call.StaticCallee()) {
+						continue
+					}
+					for _, a := range call.Call.Args {
+						var fn *ssa.Function
+						switch x := a.(type) {
+						case *ssa.MakeClosure:
+							fn, _ = x.Fn.(*ssa.Function)
+						case *ssa.Function:
+							fn = x
+						}
+						if fn != nil && calls4K(fn) {
+							out = append(out, loopSite{b, call.Pos()})
+						}
+					}
+				}
+			}
+			return out
+		}
+		// T9b: the check returning nil means that every one of its tests was evaluated and passed — no
+		// nil return bypasses a test (an early `return nil` would let unaligned sizes reach the page loop)
+		guardCheckers := map[*ssa.Function]bool{}
+		for _, f := range fns {
+			if load.RelPkg(f) != "sev" || f.Parent() != nil {
+				continue
+			}
+			if len(pageLoopSites(f)) > 0 {
 				for _, call := range callsIn(f, func(call ssa.CallInstruction) bool { return checkers[call.Common().StaticCallee()] }) {
+					guardCheckers[call.Common().StaticCallee()] = true
+				}
+			}
+		}
+		// the parts a guarding check is made of (functions of the package returning just an error that it calls) are
+		// held to the same rule
+		for round := 0; round < 3; round++ {
+			for ck := range guardCheckers {
+				for _, call := range callsIn(ck, func(call ssa.CallInstruction) bool {
+					g := call.Common().StaticCallee()
+					return g != nil && load.RelPkg(g) == "sev" && g.Blocks != nil && soleErr(g)
+				}) {
 					guardCheckers[call.Common().StaticCallee()] = true
 				}
 			}
@@ -205,12 +321,19 @@ func runC08(c *Ctx) {
 				case *ssa.If:
 					for _, sc := range b.Succs {
 						if ret, ok := sc.Instrs[len(sc.Instrs)-1].(*ssa.Return); ok && len(ret.Results) == 1 && !isNilK(ret.Results[0]) && len(sc.Preds) == 1 {
+							if call, isCall := ret.Results[0].(*ssa.Call); isCall && guardCheckers[call.Call.StaticCallee()] {
+								continue // handing on a part's verdict is a success path of this function, not a refusal
+							}
 							errChecks = append(errChecks, b)
 						}
 					}
 				case *ssa.Return:
 					if len(last.Results) == 1 && isNilK(last.Results[0]) {
 						nilRets = append(nilRets, b)
+					} else if len(last.Results) == 1 {
+						if call, isCall := last.Results[0].(*ssa.Call); isCall && guardCheckers[call.Call.StaticCallee()] {
+							nilRets = append(nilRets, b) // may be nil: the part's verdict
+						}
 					}
 				}
 			}
@@ -225,32 +348,22 @@ func runC08(c *Ctx) {
 			c.S.Check(okAll, "T9", load.FuncName(ck)+":all tests before success", c.pos(ck.Pos()), fmt.Sprintf("every nil return is behind all %d tests of the check", len(errChecks)), "the range/alignment check can return nil without having evaluated all of its tests: the page loop's slicing relies on every one of them")
 		}
 		for _, f := range fns {
-			if load.RelPkg(f) != "sev" {
+			if load.RelPkg(f) != "sev" || f.Parent() != nil {
 				continue
 			}
-			for _, L := range naturalLoops(f) {
-				// loops that extend the measurement
-				extends := false
-				for lb := range L.Body {
-					for _, in := range lb.Instrs {
-						if call, ok := in.(*ssa.Call); ok {
-							if cal := call.Call.StaticCallee(); cal != nil && cal.Signature.Recv() != nil && namedIs(cal.Signature.Recv().Type(), repoPath("sev"), "SnpMeasurement") && strings.HasSuffix(cal.Name(), "4K") {
-								extends = true
-							}
-						}
-					}
-				}
-				if !extends {
-					continue
-				}
+			for i, site := range pageLoopSites(f) {
 				nLoops++
 				ok := false
 				for _, call := range callsIn(f, func(call ssa.CallInstruction) bool { return checkers[call.Common().StaticCallee()] }) {
-					if cv := call.Value(); cv != nil && errKnownNil(L.Header, cv) {
+					if cv := call.Value(); cv != nil && errKnownNil(site.b, cv) {
 						ok = true
 					}
 				}
-				c.S.Check(ok, "T9", load.FuncName(f)+":page loop", c.pos(L.Header.Instrs[0].Pos()), "page loop runs only after the range/alignment check returned nil", "the page loop is reachable without the address-range and alignment check having succeeded")
+				construct := load.FuncName(f) + ":page loop"
+				if i > 0 {
+					construct = fmt.Sprintf("%s %d", construct, i+1)
+				}
+				c.S.Check(ok, "T9", construct, c.pos(site.pos), "page loop runs only after the range/alignment check returned nil", "the page loop is reachable without the address-range and alignment check having succeeded")
 			}
 		}
 	}
